@@ -318,6 +318,11 @@ CHECKS = {
         parts=[
             dict(name="exhaustive", run="TestC11Exhaustive", rapid=False),
             dict(name="concurrent", run="TestC11Concurrent", checks=dict(quick=5000, thorough=40000), shards=dict(quick=1, thorough=16)),
+            # long single-goroutine histories with backlogs past 16/32/64/128 pending items (storage growth, compaction, reuse after a drain)
+            dict(name="large", run="TestC11Large", checks=dict(quick=3000, thorough=30000), shards=dict(quick=1, thorough=4)),
+            # free-running producers/consumer on the real scheduler inside a bubble: no stuck consumer at quiescence, conservation, duplicate counts
+            dict(name="stress", run="TestC11Stress", checks=dict(quick=60, thorough=300), shards=dict(quick=4, thorough=16),
+                 args=dict(quick=["-c11.rounds=300"], thorough=["-c11.rounds=1000"])),
         ],
     ),
     "C20": dict(
@@ -546,6 +551,8 @@ CHECKS = {
         parts=[
             dict(name="exhaustive", run="TestC09Exhaustive", rapid=False),
             dict(name="random", run="TestC09Random", checks=dict(quick=6000, thorough=40000), shards=dict(quick=1, thorough=16)),
+            # element strings on both sides of '/', one a prefix of its sibling (sorted order is element-wise); values of every kind incl. uncomparable ones
+            dict(name="rich", run="TestC09Rich", checks=dict(quick=6000, thorough=40000), shards=dict(quick=1, thorough=8)),
         ],
     ),
 }
